@@ -90,8 +90,12 @@ def case_strategy(draw):
                 break
             i = draw(st.integers(0, len(d[1]) - 1))
             variations.append((None, i, draw(gen.value_for(d[1][i][0], 1, types))))
-    ignore_mode = draw(st.sampled_from(["none", "varied", "other", "meta", "ctx-varied", "ctx-nested", "ctx-exception"]))
+    ignore_mode = draw(st.sampled_from(["none", "varied", "other", "meta", "ctx-varied", "ctx-nested", "ctx-exception",
+                                        "ctx-exception"]))
     return {"spec": spec, "variations": variations, "ignore": ignore_mode,
+            # how the scope ends when it ends with an error: any exception class, also the ones outside Exception,
+            # and a generator holding the scope open that is closed / abandoned
+            "exc": draw(st.sampled_from(SCOPE_ERRORS)),
             "other_name": draw(gen.type_name()),
             # long-running processes evict record classes from the 4096-entry cache: an equal record may be an
             # instance of a re-generated class
@@ -237,12 +241,33 @@ def check(case, ctx):
                         raise Violation("scope-not-restored", "inner scope exit left %r, expected {'_source'}"
                                         % (base.IGNORE_FIELDS_FOR_COMPARISON,), detail="nested")
             else:
-                try:
-                    with ignore_fields_for_comparison(ign):
-                        _ignored_expect(r, v, expect_equal, where, mode)
-                        raise KeyError("scope ends with an error")
-                except KeyError:
-                    pass
+                kind = case.get("exc", "KeyError")
+                mode = "ctx-exception:" + kind
+                if kind.startswith("generator-"):
+                    def holder():
+                        with ignore_fields_for_comparison(ign):
+                            yield 1
+                            yield 2
+
+                    g = holder()
+                    next(g)
+                    _ignored_expect(r, v, expect_equal, where, mode)
+                    if kind == "generator-close":
+                        g.close()
+                    else:
+                        try:
+                            g.throw(_ScopeBaseError("thrown into the generator"))
+                        except _ScopeBaseError:
+                            pass
+                    del g
+                else:
+                    exc_cls = _scope_error_class(kind)
+                    try:
+                        with ignore_fields_for_comparison(ign):
+                            _ignored_expect(r, v, expect_equal, where, mode)
+                            raise exc_cls("scope ends with an error")
+                    except exc_cls:
+                        pass
             now = set(base.IGNORE_FIELDS_FOR_COMPARISON)
             if now != pre:
                 raise Violation("scope-not-restored", "after %s the ignored-field configuration is %r, before it was %r"
@@ -253,6 +278,26 @@ def check(case, ctx):
             ctx.nontriv()
     finally:
         set_ignored_fields_for_comparison(set())
+
+
+SCOPE_ERRORS = ["KeyError", "ValueError", "custom-Exception", "StopIteration", "KeyboardInterrupt", "SystemExit",
+                "GeneratorExit", "custom-BaseException", "CancelledError", "generator-close", "generator-throw"]
+
+
+class _ScopeError(Exception):
+    pass
+
+
+class _ScopeBaseError(BaseException):
+    pass
+
+
+def _scope_error_class(kind):
+    import asyncio
+
+    return {"KeyError": KeyError, "ValueError": ValueError, "custom-Exception": _ScopeError, "StopIteration": StopIteration,
+            "KeyboardInterrupt": KeyboardInterrupt, "SystemExit": SystemExit, "GeneratorExit": GeneratorExit,
+            "custom-BaseException": _ScopeBaseError, "CancelledError": asyncio.CancelledError}[kind]
 
 
 def _ignored_expect(r, v, expect_equal, where, mode):
